@@ -644,28 +644,45 @@ def _is_integral(ins):
 
 
 def _two_phase(orig):
-    """certify the cheap instances (rational / elementary) first with their own share of the budget, then the integral ones:
-    otherwise a cheap lemma queued behind a slow integral lemma of the same batch file is lost when the budget expires"""
+    """cert.certify puts at least 4 lemmas into every batch file, which serialises expensive integral lemmas (and a cheap lemma
+    queued behind a slow one is lost when the budget expires).  This wrapper makes the groups itself -- integral lemmas one or two
+    per file, cheap lemmas about five per file -- and runs cert.certify once per group (jobs=1) in a thread pool, all groups under
+    the same deadline.  Verdict semantics are unchanged (each group is certified by the unmodified cert.certify)."""
+    from concurrent.futures import ThreadPoolExecutor
+
     def certify(instances, tactic_params=None, jobs=16, timeout=None, tag="misc", clean=True):
-        cheap = [i for i in instances if not _is_integral(i)]
-        heavy = [i for i in instances if _is_integral(i)]
-        if not cheap or not heavy:
-            return orig(instances, tactic_params=tactic_params, jobs=jobs, timeout=timeout, tag=tag, clean=clean)
+        insts = list(instances)
+        heavy = sorted([i for i in insts if _is_integral(i)], key=lambda i: -i.prec)
+        cheap = sorted([i for i in insts if not _is_integral(i)], key=lambda i: -i.prec)
+        if len(insts) < 8:
+            return orig(insts, tactic_params=tactic_params, jobs=jobs, timeout=timeout, tag=tag, clean=clean)
         t0 = time.time()
-        share = len(cheap) / float(len(cheap) + 4 * len(heavy))
-        ra = orig(cheap, tactic_params=tactic_params, jobs=jobs, timeout=(max(20, timeout * max(0.2, share)) if timeout else None),
-                  tag=tag + "_a", clean=clean)
-        rem = (timeout - (time.time() - t0)) if timeout else None
-        rb = orig(heavy, tactic_params=tactic_params, jobs=jobs, timeout=(max(20, rem) if timeout else None), tag=tag, clean=clean)
-        for v in ra["verdicts"].values():
-            if v.get("file"):
-                v["file"] = os.path.join("..", os.path.basename(ra["dir"]), v["file"])
-        rb["verdicts"].update(ra["verdicts"])
-        rb["cmds"] = ra["cmds"] + rb["cmds"]
-        for k in rb["counts"]:
-            rb["counts"][k] += ra["counts"][k]
-        rb["wall_s"] = round(time.time() - t0, 2)
-        return rb
+        nh = max(1, min(len(heavy), max(1, jobs - 4)))
+        hg = [heavy[k::nh] for k in range(nh)] if heavy else []
+        nc = max(1, min(max(2, jobs // 2), (len(cheap) + 4) // 5)) if cheap else 0
+        cg = [cheap[k::nc] for k in range(nc)] if cheap else []
+        groups = [g for g in hg + cg if g]
+
+        def one(arg):
+            k, g = arg
+            rem = None if timeout is None else max(15, timeout - (time.time() - t0))
+            return orig(g, tactic_params=tactic_params, jobs=1, timeout=rem, tag="%s_g%02d" % (tag, k), clean=clean)
+        with ThreadPoolExecutor(max(1, jobs)) as ex:
+            results = list(ex.map(one, list(enumerate(groups))))
+        base = os.path.join(cert.CERT_ROOT, cert._safe(tag))
+        os.makedirs(base, exist_ok=True)
+        out = {"verdicts": {}, "cmds": [], "counts": {"pass": 0, "fail": 0, "inconclusive": 0}, "dir": base,
+               "params": results[0]["params"]}
+        for r in results:
+            for v in r["verdicts"].values():
+                if v.get("file"):
+                    v["file"] = os.path.join("..", os.path.basename(r["dir"]), v["file"])
+            out["verdicts"].update(r["verdicts"])
+            out["cmds"] += r["cmds"]
+            for kk in out["counts"]:
+                out["counts"][kk] += r["counts"][kk]
+        out["wall_s"] = round(time.time() - t0, 2)
+        return out
     return certify
 
 
